@@ -21,7 +21,7 @@ ALPHABET = {
     "retract": [S("G1", "E#"), S("G10", ""), S("G11", ""), S("G10", "S1"), S("G11", "S1"), S("G10", "P1"),
                 S("G1", "X# Y# E#"), S("G1", "X# Y#")],
     "frame": [S("G20"), S("G21"), S("G90"), S("G91"), S("G92", "E#"), S("G28", "X"), S("G28"),
-              S("G1", "X# Y#"), S("G1", "X# E#"), S("G1", "Z#")],
+              S("G1", "X# Y#"), S("G1", "X# E#"), S("G1", "Z#"), pl.REPEAT],
     "other": [S("M105"), S("G4", "P#"), S("M204", "P# T#"), S("M117", "S1"), S("T1"), S("M73", "P#"),
               S("G1", "X# Y# E#"), S("G2", "X# Y# I# J#"), S("G3", "X# Y# I# J# E#"), S("G2", "X# Y# R#")],
     "arcs": [S("G2", "X# Y# I# J#"), S("G3", "X# Y# I# J# E#"), S("G2", "X# Y# R#"), S("G3", "X# I#"),
@@ -48,12 +48,12 @@ def scen(w, K=3, R=1, alphabet="moves"):
     pipe.home()
     for k in range(K):
         shape = shapes[w.choose(len(shapes), "shape")]
-        text, _ = pl.render(w, shape, pipe.k)
-        rec = pipe.begin(text)
         w.cover("shape-" + shape.tag)
+        text, code = pl.next_text(w, pipe, shape)
+        rec = pipe.begin(text)
         if shape.code == "G92" and any(l in "XYZ" for l, _ in shape.words) and KF_G92 in w.excluded:
             pl.skip(w, KF_G92)
-        if shape.code in ("G2", "G3") and not pipe.V.abs_xyz:
+        if code in ("G2", "G3") and not pipe.V.abs_xyz:
             pl.skip(w, "arc in relative mode (outside C16/C02 claim)")
         if rec.is_move and pipe.enabled and pipe.regions:
             w.assume(alg.not_(rec.dest_inside))
